@@ -17,7 +17,10 @@ def run(ctx: Ctx) -> None:
     # binding 2: behaviours of the model replayed into the real responder
     mscs, predicted = qm.model_scenarios(ctx, 'c12')
     from props.respfam import d22_scenarios
-    scenarios, traces = run_family(ctx, 'C12', 'c12', 400, 12000, mscs + d22_scenarios('C12'))
+    from props import listenermodel
+    lfull = listenermodel.responder_scenarios(ctx, 'c12', ctx.pick(150, 3000))
+    scenarios, traces = run_family(ctx, 'C12', 'c12', 400, 12000, mscs + lfull + d22_scenarios('C12'))
+    ctx.coverage['listener_histories_full_stack'] = len(lfull)
     d = qm.drift(traces, predicted)
     for x in d[:5]:
         print('MODEL-DRIFT property=C12 scenario=%s real multicast answers %s, model predicts %s (evidence, not a verdict: the '
@@ -31,11 +34,17 @@ def run(ctx: Ctx) -> None:
     strict_sighting_pass(ctx, scenarios, traces)
     from props.resp_run import additional_pass
     additional_pass(ctx, scenarios, traces)
+    # the datagram front end on its own (Listener.tla / ListenerContract.tla): clauses C12_TrainAssembly, C12_HoldWindow
+    listenermodel.run(ctx, 'C12')
 
 
 def replay(ctx: Ctx, path: str) -> None:
     import json
     rep = json.load(open(path))['replay']
+    if 'listener_history' in rep:
+        from props import listenermodel
+        listenermodel.run(ctx, 'C12', [dict(rep['listener_history'], id='listener-replay')])
+        return
     if 'route_case' in rep:
         from props import routemodel
         routemodel.run(ctx, 'C12', [dict(rep['route_case'], id='route-replay')])
